@@ -915,6 +915,76 @@ pub fn ghost_sig(view: &View, world: &World, op: &Op, req: &autosar_data::verif:
     format!("{kind}-{mode}:{target}")
 }
 
+struct IterTrack {
+    kind: String,
+    expected: Option<Vec<String>>,
+    yielded: usize,
+    mutated: bool,
+}
+
+/// what an iterator opened now must yield, item by item, if the model is not modified (computed from the snapshot)
+fn expected_items(view: &View, world: &World, op: &Op) -> Option<Vec<String>> {
+    let eh = |e: &Element| world.elem_h(e).map(|h| format!("E{h}")).unwrap_or("E?".into());
+    let node_of = |h: H| -> Option<(usize, usize)> {
+        match place_of(view, world, h) {
+            Place::Live(mi, ni) => Some((mi, ni)),
+            _ => None,
+        }
+    };
+    let dfs = |mi: usize, start: usize, max_depth: usize| -> Vec<String> {
+        let ms = &view.models[mi].1;
+        let base = ms.nodes[start].depth;
+        let mut out = Vec::new();
+        for j in ms.subtree_range(start) {
+            let d = ms.nodes[j].depth - base;
+            if max_depth == 0 || d <= max_depth {
+                out.push(format!("{:?}", d.to_string()));
+                out.push(eh(&ms.nodes[j].e));
+            }
+        }
+        out
+    };
+    match op.name.as_str() {
+        "sub" => {
+            let (mi, ni) = node_of(op.a)?;
+            let ms = &view.models[mi].1;
+            Some(ms.nodes[ni].children.iter().map(|c| eh(&ms.nodes[*c].e)).collect())
+        }
+        "content" => {
+            let (mi, ni) = node_of(op.a)?;
+            let ms = &view.models[mi].1;
+            Some(
+                ms.nodes[ni]
+                    .content
+                    .iter()
+                    .map(|c| match c {
+                        crate::obs::CItem::E(j) => eh(&ms.nodes[*j].e),
+                        crate::obs::CItem::C(t) => format!("{t:?}"),
+                    })
+                    .collect(),
+            )
+        }
+        "dfs" => {
+            let (mi, ni) = node_of(op.a)?;
+            Some(dfs(mi, ni, op.n))
+        }
+        "mdfs" => {
+            let m = world.model(op.a)?;
+            let mi = view.models.iter().position(|(_, ms)| ms.model == m)?;
+            Some(dfs(mi, 0, op.n))
+        }
+        "attrs" => {
+            // the root's xsi:schemaLocation is rewritten by every file serialization (also the harness's own): not tracked
+            if let Some((_, 0)) = node_of(op.a) {
+                return None;
+            }
+            let e = world.elem(op.a)?;
+            Some(e.attributes().map(|a| format!("{:?}", format!("{}={}", a.attrname.to_str(), crate::ops::cd_str(&a.content)))).collect())
+        }
+        _ => None,
+    }
+}
+
 pub fn outcome_of(ret: &Ret) -> String {
     if let Some(e) = &ret.err {
         format!("Err({e})")
@@ -944,6 +1014,8 @@ pub fn run_history(cfg: &HistCfg) -> HistResult {
     let mut seen_hashes: HashMap<u64, ()> = HashMap::new();
     let mut detached_by: HashMap<H, K> = HashMap::new();
     let mut run_ghost: Option<String> = None;
+    // iterators opened by the history: what they must yield as long as nothing is modified
+    let mut iters: HashMap<String, IterTrack> = HashMap::new();
 
     for i in 0..n_ops {
         let (label, op) = match &cfg.scripted {
@@ -979,6 +1051,7 @@ pub fn run_history(cfg: &HistCfg) -> HistResult {
         }
         let rel = passthrough(|| relation(&pre, &world, &op, &detached_by));
         let pc = passthrough(|| capture_pre(&pre, &world, &op, &cfg.props));
+        let pre_hash = crate::obs::hash64(&pre.canon());
         let (tt0, gf0) = eng.with_state(|st| (st.counters.try_timed, st.counters.ghost_fired));
         let ret = exec(&world, label, &op);
         let (tt1, gf1) = eng.with_state(|st| (st.counters.try_timed, st.counters.ghost_fired));
@@ -1037,6 +1110,43 @@ pub fn run_history(cfg: &HistCfg) -> HistResult {
         res.ops.push(OpRecord { label, op: Some(op.clone()), ret: ret_canon, try_timed: tt1 - tt0, ghost_fired: gf1 - gf0, post_hash: h, ghost: if gf1 > gf0 { run_ghost.clone() } else { None }, edges: op_edges });
 
         let mut viols: Vec<Violation> = Vec::new();
+        // ---- C03: an iterator yields exactly the reference sequence as long as nothing was modified since it was opened
+        if op.k == K::ItOpen && ret.shape == "Iter" {
+            if let Some(crate::ops::Item::S(hs)) = ret.items.first() {
+                let expected = passthrough(|| expected_items(&pre, &world, &op));
+                iters.insert(hs.clone(), IterTrack { kind: op.name.clone(), expected, yielded: 0, mutated: false });
+            }
+        } else if op.k == K::ItNext && !ret.skipped && ret.panic.is_none() && !ret.aborted {
+            if let Some(tr) = iters.get_mut(&format!("{}", op.a)) {
+                let got: Option<String> = if ret.shape == "Some" {
+                    ret.items.first().map(|it| match it {
+                        crate::ops::Item::E(e) => world.elem_h(e).map(|h| format!("E{h}")).unwrap_or("E?".into()),
+                        crate::ops::Item::S(t) => format!("{t:?}"),
+                        other => format!("{other:?}"),
+                    })
+                } else {
+                    None
+                };
+                if let (false, Some(exp)) = (tr.mutated, &tr.expected) {
+                    let want = exp.get(tr.yielded).cloned();
+                    if got != want {
+                        viols.push(Violation {
+                            prop: "C03".into(),
+                            sig: format!("ItNext|{}|iterator-differs|{}", tr.kind, fault_name(&cfg.ghost, gf1 - gf0)),
+                            detail: format!("iterator `{}` (nothing modified since it was opened) yields {:?} as item {}, the reference sequence has {:?}", tr.kind, got, tr.yielded, want),
+                            at: label,
+                        });
+                    }
+                }
+                if got.is_some() {
+                    tr.yielded += 1;
+                }
+            }
+        } else if h != pre_hash {
+            for tr in iters.values_mut() {
+                tr.mutated = true;
+            }
+        }
         // ---- engine findings (C12 / C15)
         let new_findings: Vec<Finding> = eng.with_state(|st| st.findings[findings_seen..].to_vec());
         findings_seen += new_findings.len();
